@@ -158,6 +158,11 @@ Section Calc.
   (* the body of calculate_selection, parameterised by the recursive call *)
   Section Body.
     Variable rec : ctx -> list rsel -> nat -> string -> string -> option ctx.
+    (* the members contributed by a nested selection set to the SAME struct (calculate_fields) *)
+    Variable recf : ctx -> list rsel -> nat -> string -> string -> option ctx.
+    (* an object has no variants: every fragment validation accepted under it applies *)
+    Definition on_object (tname : string) : bool :=
+      match find_kind_sdl s tname with Some KObject => true | _ => false end.
 
     (* 1. the exhaustive variants of a union / interface *)
     Definition calc_variants (c : ctx) (sels : list rsel) (sid : nat) (tname prefix : string) : option ctx :=
@@ -217,9 +222,11 @@ Section Calc.
                 rec c2 sub nid tn sname
             | _ => Some c      (* unreachable!("field selection on input type"): resolve never binds such a field *)
             end
-        | RTypename | RInline _ _ => Some c
+        | RTypename => Some c
+        | RInline on sub =>
+            if on_object tname then recf c sub sid tname (prefix ++ "On" ++ camel on)%string else Some c
         | RSpread n =>
-            if String.eqb (frag_on n) tname
+            if String.eqb (frag_on n) tname || on_object tname
             then Some (push_field c sid (render_field o None (kw (snake n)) n [QRequired] true None (recursive n)))
             else Some c
         end) sels c.
@@ -239,7 +246,13 @@ Section Calc.
     : option ctx :=
     match fuel with
     | O => None
-    | S f => calc_body (calc f) c sels sid tname prefix
+    | S f => calc_body (calc f) (calcf f) c sels sid tname prefix
+    end
+  with calcf (fuel : nat) (c : ctx) (sels : list rsel) (sid : nat) (tname prefix : string) {struct fuel}
+    : option ctx :=
+    match fuel with
+    | O => None
+    | S f => calc_fields (calc f) (calcf f) c sels sid tname prefix
     end.
 
   Definition calc_fuel (sels : list rsel) : nat := S (S (sels_depth sels)).
